@@ -898,6 +898,7 @@ def eq_kernels(start_id):
                     l = form(fl, a, "va", T(1))
                     r = form(fr, b, "vb", T(2))
                     progs.append(_prog(pid[0], types, [], {"stmts": stmts, "fin": {"k": "bin", "op": op, "a": l, "b": r}}, BOOL))
+                    progs[-1]["meta"] = {"family": "eq"}        # (fc profile only: not part of the tinyfo kernels)
                     pid[0] += 1
     return progs
 
